@@ -33,6 +33,7 @@ def run(chk):
     chk.rule('C09-R4', 'component c of a position/velocity store reads component c; velocity-bias formula; the three tracer blocks are alpha-equivalent', 8)
     chk.rule('C09-R5', 'RSD (box observer): only z is re-assigned, to wrap(z + vz/velz2kms, L); wrap maps into [-L/2, L/2)', 8)
     chk.rule('C09-R6', 'galaxy mass and id are the host\'s (same row as the position)', 6)
+    chk.rule('C09-R8', 'parameter tables: every entry D[k] = SRC.get(k, default) copies its own key from its own tracer\'s table', 1)
     chk.rule('C09-R7', 'assembly: concatenate(cent[k], sat[k]) for every column and the id; Ncent = number of centrals; tracer dicts mapped by position; fast_concatenate copies array1 then array2 completely', 8)
     chk.assume('the numerical form of the occupation functions and slice end-points (<= at a zero-width slice) are not decided')
     passes = {}
@@ -42,6 +43,7 @@ def run(chk):
     conformity(chk, passes)
     wrap_rule(chk)
     assembly(chk)
+    parameter_tables(chk)
     from .c10 import concat
     concat(chk, R6='C09-R7', R1='C09-R7')
 
@@ -460,6 +462,30 @@ def wrap_rule(chk):
     chk.check(t.get('velz2kms') == "params['velz2kms']" and t.get('inv_velz2kms') == '1 / velz2kms' and t.get('lbox') == "params['Lbox']",
               'C09-R5', GH, 'gen_gals', 'inv_velz2kms = 1 / params[velz2kms]; lbox = params[Lbox]', '',
               f'velz2kms = {t.get("velz2kms")}, inv = {t.get("inv_velz2kms")}, lbox = {t.get("lbox")}', node=gg)
+
+
+def parameter_tables(chk):
+    """The HOD parameters reach the kernels through per-tracer typed dicts filled in gen_gals: every entry `D['k'] = SRC.get('k2', default)` copies
+    the user's value of the SAME key (a copy-pasted neighbour key makes one parameter silently take another one's value, and overwrites a value
+    the user did supply), )."""
+    src = chk.src
+    gg = src.func(GH, 'gen_gals')
+    n = 0
+    bad = []
+    for st in ast.walk(gg):
+        if isinstance(st, ast.Assign) and len(st.targets) == 1 and isinstance(st.targets[0], ast.Subscript) and isinstance(st.targets[0].value, ast.Name) \
+                and st.targets[0].value.id.endswith('_hod_dict') and isinstance(st.targets[0].slice, ast.Constant) and isinstance(st.value, ast.Call) \
+                and isinstance(st.value.func, ast.Attribute) and st.value.func.attr == 'get' and st.value.args and isinstance(st.value.args[0], ast.Constant):
+            n += 1
+            tr_d = st.targets[0].value.id.split('_')[0]
+            tr_s = unparse(st.value.func.value).split('_')[0]
+            if st.targets[0].slice.value != st.value.args[0].value or tr_d != tr_s:
+                bad.append(st)
+    if n < 10:
+        raise AnalysisError(f'gen_gals: only {n} parameter table entries of the form D[k] = SRC.get(k, default) found')
+    chk.check(not bad, 'C09-R8', GH, 'gen_gals', 'every parameter table entry copies the user\'s value of its own key from its own tracer\'s table', f'{n} entries',
+              '; '.join(f'line {b.lineno}: {unparse(b)[:90]}' for b in bad[:3]) + ': the entry takes another parameter\'s value (and overwrites the one the user supplied): '
+              'the slice widths computed from it are not the occupation with the tracer\'s own parameters', node=bad[0] if bad else gg)
 
 
 def assembly(chk):
